@@ -72,6 +72,11 @@ pub fn families(a: &Args, rng: &mut Rng) -> Vec<Fam> {
     for t in complementary_derivatives_family(&pool) {
         v.push(Fam { t, fam: "fresh-manager" });
     }
+    for (i, t) in common_factor_family(&pool).into_iter().enumerate() {
+        if a.thorough() || i % 2 == (a.seed as usize) % 2 {
+            v.push(Fam { t, fam: "common-factor" });
+        }
+    }
     for t in many_classes_family() {
         v.push(Fam { t, fam: "many-classes" });
     }
